@@ -37,24 +37,35 @@ var corpus = []string{
 	// anchored patterns with optional / alternative capture groups (one-pass DFA capture path)
 	`^(x)?(y)?z$`, `^([a-z]+)(?:=(\d+))?;`, `^(\d+)(?:\.(\d+))?$`, `^(GET|POST) (/\S*)(?: (HTTP/\d))?$`, `^(?:(a)|(b))c`, `^(\w+)(?:-(\w+))?(?:\.(\w+))?$`,
 	`^([+-])?(\d+)$`, `^(foo)(bar)?(baz)?`, `^(\w)(\w)?(\w)?$`,
+	// more representatives of the strategies the first corpus covered thinly
+	`(?m)^.*warning`, `(?m)^.*failed:`, `(?m)^.*\.php`, `(?m)^.+TODO`,
+	`\w+=\w+`, `[a-z]+://[a-z]+`, `\w+\s*=\s*\w+`, `\w+::\w+`, `[A-Za-z]+, [A-Za-z]+`,
+	`^(if|for|while)\b`, `^(https?|ftp)://`, `^(yes|no|maybe)$`, `^(\d+|[a-f]+)x`, `^(alpha|beta|gamma|delta)-`,
+	`^/api/.*\.json$`, `^GET .* HTTP$`, `^begin.*end$`, `^<.*>$`, `^\[.*\]$`,
 	// state blow-up (many reachable DFA states on inputs over the pattern's own alphabet)
 	`a[ab]{12}[cd]`, `[cd][ab]{10}a[ab]*x`, `ab[ab]{20}c`, `(a|b)*a(a|b){9}`, `[01]*1[01]{11}`,
 }
 
-// longAlternation builds an alternation of n distinct words (Aho-Corasick range).
-func longAlternation(n int) string {
-	b := make([]byte, 0, n*6)
+// longAlternation builds an alternation of n distinct words of length l with no
+// common prefix (65..150 words select the Aho-Corasick strategy, 33..64 Teddy,
+// 300 the NFA).
+func longAlternation(n, l int) string {
+	b := make([]byte, 0, n*(l+1))
 	for i := 0; i < n; i++ {
 		if i > 0 {
 			b = append(b, '|')
 		}
-		b = append(b, 'k', byte('a'+i%26), byte('a'+(i/26)%26), byte('a'+(i*7)%26), byte('a'+(i*3)%26))
+		x := i*7919 + 13
+		for j := 0; j < l; j++ {
+			b = append(b, byte('a'+x%26))
+			x = x/26 + i*31 + j*17
+		}
 	}
 	return string(b)
 }
 
 func init() {
-	corpus = append(corpus, longAlternation(70), longAlternation(120), "("+longAlternation(66)+")x")
+	corpus = append(corpus, longAlternation(70, 5), longAlternation(120, 3), longAlternation(40, 4), "("+longAlternation(66, 4)+")x", longAlternation(300, 4))
 }
 
 // mutatePattern returns a syntactic neighbour of p (or p itself), so that
